@@ -9,7 +9,8 @@ from . import solve_engine as E
 
 PROPERTY = "C15"
 LEVEL = "exploration"
-RULE = ("three generated case families: (hard) small-domain programs with a dist statement (values, ranges, zero weights, "
+RULE = ("four generated case families (the fourth: a dist inside foreach whose weights are non-random lists indexed by the loop "
+        "variable, judged per element like freq): (hard) small-domain programs with a dist statement (values, ranges, zero weights, "
         "weights given by non-random fields) plus arbitrary accompanying constraints: every free draw and two-directional "
         "pinned probes against the enumerated reference, where dist = 'value in an entry with non-zero weight'; (freq) a "
         "field constrained only by a dist with disjoint entries and small integer weights (optionally linked to another "
@@ -252,6 +253,91 @@ def run_select(case, n_draws):
     return [], {"nontrivial": any(w == 0 for w in ws) and len(set(w for w in ws if w > 0)) > 1}
 
 
+
+
+# ------------------------------------------------------------------------------------------------
+# family: a dist inside foreach whose weights come from non-random lists indexed by the loop variable, so that every
+# element has its own weights (zero for some elements)
+FEDIST_SRC = """
+@vsc.randobj
+class T(object):
+    def __init__(self, w1, w2, w3):
+        self.l = vsc.rand_list_t(vsc.bit_t(3), sz=len(w1))
+        self.w1 = vsc.list_t(vsc.bit_t(4), sz=len(w1))
+        self.w2 = vsc.list_t(vsc.bit_t(4), sz=len(w1))
+        self.w3 = vsc.list_t(vsc.bit_t(4), sz=len(w1))
+        for i in range(len(w1)):
+            self.w1[i] = w1[i]
+            self.w2[i] = w2[i]
+            self.w3[i] = w3[i]
+    @vsc.constraint
+    def c0(self):
+        with vsc.foreach(self.l, idx=True) as i:
+            vsc.dist(self.l[i], [vsc.weight(%(v1)d, self.w1[i]), vsc.weight(%(v2)d, self.w2[i]), vsc.weight(vsc.rng(%(lo)d, %(hi)d), self.w3[i])])
+"""
+
+
+@hyp.composite
+def fedist_cases(d):
+    n = d.randint(2, 3)
+    v1, v2 = d.sample([0, 1, 2, 3], 2)
+    lo = d.randint(4, 6)
+    hi = d.randint(lo, 7)
+    ws = []
+    for _ in range(3):
+        ws.append([d.choice([0, 1, 2, 3, 5, 0]) for _ in range(n)])
+    for i in range(n):
+        if ws[0][i] + ws[1][i] + ws[2][i] == 0:
+            ws[d.randint(0, 2)][i] = d.randint(1, 3)
+    return {"kind": "fedist", "v1": v1, "v2": v2, "lo": lo, "hi": hi, "w": ws, "seed": d.seed()}
+
+
+def run_fedist(case, n_draws):
+    import enum as _enum
+    vsc = import_vsc()
+    src = FEDIST_SRC % {"v1": case["v1"], "v2": case["v2"], "lo": case["lo"], "hi": case["hi"]}
+    ws = case["w"]
+    n = len(ws[0])
+    text = src + "# T(w1=%s, w2=%s, w3=%s), seed %d, %d draws" % (ws[0], ws[1], ws[2], case["seed"], n_draws)
+    reset_library()
+    try:
+        ns = {"vsc": vsc, "enum": _enum}
+        exec(compile(src, "<pvs-c15-fedist>", "exec"), ns)
+        obj = ns["T"](ws[0], ws[1], ws[2])
+        obj.set_randstate(flat.mk_randstate(case["seed"]))
+    except Exception as e:
+        reset_library()
+        return [V("library_exception", "construction: " + exc_sig(e), case, text, repr(e)[:300])], {}
+    entries = []
+    for i in range(n):
+        entries.append([([case["v1"]], ws[0][i]), ([case["v2"]], ws[1][i]), (list(range(case["lo"], case["hi"] + 1)), ws[2][i])])
+    counts = [dict() for _ in range(n)]
+    for k in range(n_draws):
+        try:
+            obj.randomize()
+        except Exception as e:
+            ei = flat.defuse(e)
+            flat.scrub(obj)
+            reset_library()
+            return [V("library_exception", "draw: " + ei.sig, case, text, "draw %d raised %r" % (k, ei))], {}
+        for i in range(n):
+            v = int(obj.l[i])
+            counts[i][v] = counts[i].get(v, 0) + 1
+            allowed = set(x for vals, w in entries[i] if w > 0 for x in vals)
+            if v not in allowed:
+                return [V("forbidden_value", "a zero-weight or unlisted value was produced for a list element", case, text,
+                          "draw %d: l[%d]=%d; its weights allow %s" % (k, i, v, sorted(allowed)))], {}
+    for i in range(n):
+        tot = sum(w for _, w in entries[i])
+        ecount = {"l[%d] entry#%d" % (i, j): sum(counts[i].get(x, 0) for x in vals) for j, (vals, w) in enumerate(entries[i]) if w > 0}
+        eprob = {"l[%d] entry#%d" % (i, j): w / float(tot) for j, (vals, w) in enumerate(entries[i]) if w > 0}
+        v = freq_test(ecount, eprob, n_draws, "entry frequency of a list element", case, text)
+        if v:
+            return [v], {}
+    differ = len(set(tuple(w[i] for w in ws) for i in range(n))) > 1
+    return [], {"nontrivial": differ and any(x == 0 for w in ws for x in w)}
+
+
 KEEP = {"unsound_value", "pin_nonmember_returned", "spurious_solve_failure", "pin_member_rejected", "returned_on_unsat",
         "library_exception", "pin_readback"}
 
@@ -283,6 +369,8 @@ def run_case(case, tier="quick"):
     n = 4000 if tier == "quick" else 20000
     if k == "freq":
         return run_freq(case, case.get("n", n))
+    if k == "fedist":
+        return run_fedist(case, case.get("n", n // 2))
     return run_select(case, case.get("n", n * 5))
 
 
@@ -290,6 +378,7 @@ def shards(tier):
     out = [{"kind": "hard", "i": i, "n": 150 if tier == "quick" else 5000} for i in range(8)]
     out += [{"kind": "freq", "i": i, "n": 3 if tier == "quick" else 12} for i in range(12 if tier == "quick" else 16)]
     out += [{"kind": "select", "i": i, "n": 20 if tier == "quick" else 100} for i in range(2)]
+    out += [{"kind": "fedist", "i": i, "n": 3 if tier == "quick" else 12} for i in range(2 if tier == "quick" else 4)]
     return out
 
 
@@ -297,7 +386,9 @@ def run_shard(spec, seed, tier, acc):
     kind = spec["kind"]
 
     def body(case, acc):
-        if kind != "hard":
+        if kind == "fedist":
+            case["n"] = 1500 if tier == "quick" else 8000
+        elif kind != "hard":
             case["n"] = (4000 if tier == "quick" else 20000) * (5 if kind == "select" else 1)
         vios, info = run_case(case, tier)
         text = E.text_of(case) if kind == "hard" else (render.program_source(case["prog"]) if kind == "freq" else cjson(case))
@@ -306,7 +397,7 @@ def run_shard(spec, seed, tier, acc):
         if kind != "hard":
             acc.label("draws", case["n"])
         return vios
-    strat = {"hard": hard_cases, "freq": freq_cases, "select": select_cases}[kind]()
+    strat = {"hard": hard_cases, "freq": freq_cases, "select": select_cases, "fedist": fedist_cases}[kind]()
     hyp.drive(strat, body, seed, spec["n"], acc, shrink=(kind == "hard"))
 
 
